@@ -44,7 +44,8 @@ def both_zeros(line):
 
 class C13(Property):
     id = "C13"
-    lean_module = "RosuModel.Props.C13Exact"   # imports Props/C13.lean; namespace Rosu.C13
+    lean_module = "RosuModel.Props.C13Full"   # imports Props/C13.lean; namespace Rosu.C13
+    theorem_modules = ['RosuModel.Props.C13Exact', 'RosuModel.Props.C13Ieee']   # files whose top-level theorems are all audited
     namespace = "Rosu.C13"
     design_ref = "5.13"
     level_text = (
